@@ -255,8 +255,10 @@ func (c *Config) flattenedKeys(opts *options) []string {
 	return keys
 }
 
+// The readers accept a nil receiver: a Config that was not made by New (the
+// zero value, e.g. embedded by value in a struct) is an empty configuration.
 func (f *fields) get(name string) (value, bool) {
-	if f.d == nil {
+	if f == nil || f.d == nil {
 		return nil, false
 	}
 	v, found := f.d[name]
@@ -264,14 +266,23 @@ func (f *fields) get(name string) (value, bool) {
 }
 
 func (f *fields) dict() map[string]value {
+	if f == nil {
+		return nil
+	}
 	return f.d
 }
 
 func (f *fields) array() []value {
+	if f == nil {
+		return nil
+	}
 	return f.a
 }
 
 func (f *fields) del(name string) bool {
+	if f == nil {
+		return false
+	}
 	_, exists := f.d[name]
 	if exists {
 		delete(f.d, name)
@@ -280,6 +291,9 @@ func (f *fields) del(name string) bool {
 }
 
 func (f *fields) delAt(i int) bool {
+	if f == nil {
+		return false
+	}
 	a := f.a
 	if i < 0 || len(a) <= i {
 		return false
